@@ -673,6 +673,53 @@ func extractMuxFacts(repo, root string) error {
 		f.add("remainOnlyFromPrims", false, "message_reader.go not parsed")
 	}
 
+	// ---- the in-flight counter of a Conn counts REQUESTS: `enter()` is called by the function that numbers and writes a
+	// request (doRequest — every path, do / ApiVersions / ReadBatchWith, goes through it) and nowhere else; `leave()` by
+	// doRequest on its error path and by waitResponse when the wait is over.  (`concurrency() == 1` is what enables
+	// `Event.lone`: `aloneWaiting` in the model counts calls whose status is `waiting`, i.e. written and not yet served.)
+	{
+		calls := func(fd *ast.FuncDecl, suffix string) int {
+			n := 0
+			if fd == nil {
+				return 0
+			}
+			ast.Inspect(fd.Body, func(x ast.Node) bool {
+				if c, ok := x.(*ast.CallExpr); ok && strings.HasSuffix(selPath(c.Fun), suffix) && len(c.Args) == 0 {
+					n++
+				}
+				return true
+			})
+			return n
+		}
+		dr, wr := findFunc(conn, "Conn", "doRequest"), findFunc(conn, "Conn", "waitResponse")
+		numbers := dr != nil && strings.Contains(src(f.fset, dr.Body), "correlationID++")
+		elsewhere := 0
+		for _, d := range conn.Decls {
+			fd, ok := d.(*ast.FuncDecl)
+			if !ok || fd.Body == nil || fd == dr || fd.Name.Name == "enter" {
+				continue
+			}
+			elsewhere += calls(fd, ".enter")
+		}
+		// leave() on doRequest's error path
+		leaveOnErr := false
+		if dr != nil {
+			ast.Inspect(dr.Body, func(x ast.Node) bool {
+				if is, ok := x.(*ast.IfStmt); ok && strings.HasSuffix(src(f.fset, is.Cond), "!= nil") {
+					ast.Inspect(is.Body, func(y ast.Node) bool {
+						if c, ok := y.(*ast.CallExpr); ok && strings.HasSuffix(selPath(c.Fun), ".leave") {
+							leaveOnErr = true
+						}
+						return true
+					})
+				}
+				return true
+			})
+		}
+		ok := numbers && calls(dr, ".enter") == 1 && elsewhere == 0 && leaveOnErr && calls(wr, ".leave") == 1
+		f.add("inflightCountsRequests", ok, fmt.Sprintf("conn.go: enter() once in doRequest (which numbers the request: %v), %d other callers; leave() on doRequest's error path: %v, in waitResponse: %d", numbers, elsewhere, leaveOnErr, calls(wr, ".leave")))
+	}
+
 	// ---- connPool.discover: every refresh awaits a promise of its own (Model/PoolDiscover.lean `chanOf fresh`): the
 	// `make(async, …)` whose variable travels in the connRequest and is awaited sits INSIDE the loop, in the block of the
 	// turn that sends and awaits it.
